@@ -8,15 +8,18 @@
    - a directory that was not there before is one the new cache records (commit) / one the previous cache recorded or an
    ancestor it needs (rollback) / does not exist (refusal); C03_clean_foreign_directories - clean removes a directory only
    if the cache records it as created and nothing is left in it.  The side conditions per outcome are the definitions
-   side_survive / side_appear of SimL1.v (condition A etc.).  Label partial: under faults only the file half is proved;
-   "a recorded directory goes only when empty" for committed builds is proved relative to fs_wf of the final tree
-   (SimL2.v). *)
+   side_survive / side_appear of SimL1.v (condition A etc.).  Under ANY fault set and for any outcome (SimP1.v, SimP3.v):
+   C03_trees_stay_well_formed and C03_build_makes_only_related_directories - a directory in the final tree was there
+   before, is recorded by the previous cache, or is a proper ancestor of a target of this build / of the previous cache /
+   of the cache file.  C03_committed_directory_with_foreign_content_survives: a committed build keeps every directory
+   that has a foreign file or an unrecorded directory below it.  Label partial: "every foreign directory survives" is
+   proved fault-free only. *)
 From Coq Require Import List String Bool.
 From FB.Base Require Import PyVal Fs.
 From FB.Gen Require Import JsonUtilGen.
 From FB.Spec Require Import Prog Ref.
 From FB.Model Require Import Types Monad Builder Persist Build Run Frame.
-From FB.Proofs Require Import FrameLaws CleanLaws SimL1.
+From FB.Proofs Require Import FrameLaws CleanLaws RollbackLaws RollbackDirsLaws SimL1 SimP1 SimP3.
 (* T1g: Model/BuildDirs.v and Model/CreatedFiles.v are equal to the translation of build_dirs.py / created_files.py
    (Gen/BookGen.v, regenerated on every run); a change of those sources that the model does not follow breaks this import *)
 From FB.Proofs Require BookGenLaws.
@@ -93,6 +96,33 @@ Theorem C03_clean_foreign_directories : forall cf nm w w' r, w_faults w = [] -> 
      (exists f c, lookup (w_fs w) cf = Some (NFile f) /\ cache_of_json (f_json f) = ReadOk c /\ In d (c_dirs c)) /\
      forall n, lookup (w_fs w') (n :: d) = None).
 Proof. exact clean_foreign_directories. Qed.
+
+(* any program, any fault set, any outcome *)
+Theorem C03_trees_stay_well_formed : forall cf nm vers root w w' r,
+  fs_wf (w_fs w) -> run_build cf nm vers root w = (w', r) -> fs_wf (w_fs w').
+Proof. exact run_build_wf. Qed.
+
+Theorem C03_build_makes_only_related_directories : forall cf nm vers svers root w w' r (P : path -> Prop),
+  sanitize vers = Some svers -> AllTargets P root -> fs_wf (w_fs w) ->
+  run_build cf nm vers root w = (w', r) ->
+  forall d, lookup (w_fs w') d = Some NDir ->
+    lookup (w_fs w) d = Some NDir \/
+    In d (c_dirs (old_cache_of (w_fs w) cf nm svers)) \/
+    exists t, (P t \/ t = cf \/ In t (cache_targets (old_cache_of (w_fs w) cf nm svers))) /\ below d t = true.
+Proof. exact build_makes_only_related_directories. Qed.
+
+Theorem C03_committed_directory_with_foreign_content_survives :
+  forall cf nm vers svers root w w' v (P : path -> Prop),
+  w_faults w = [] -> sanitize vers = Some svers -> AllTargets P root ->
+  fs_wf (w_fs w) ->
+  CondA P cf (old_cache_of (w_fs w) cf nm svers) (w_fs w) ->
+  dirs_ok (old_cache_of (w_fs w) cf nm svers) ->
+  run_build cf nm vers root w = (w', Done (inl v)) ->
+  forall d q, below d q = true ->
+    ((exists f, lookup (w_fs w) q = Some (NFile f) /\ ~ Managed P (old_cache_of (w_fs w) cf nm svers) cf q) \/
+     (lookup (w_fs w) q = Some NDir /\ ~ In q (c_dirs (old_cache_of (w_fs w) cf nm svers)))) ->
+    lookup (w_fs w') d = Some NDir.
+Proof. exact committed_directory_with_foreign_content_survives. Qed.
 
 (* non-vacuity: the set of targets of a concrete program *)
 Example C03_nonvacuous :
